@@ -1,6 +1,11 @@
 (* LockDefs.v - concurrent robsd-step processes on one step file, at the
    granularity of their file system operations (the sync points of step.c):
-     open -> flock(LOCK_EX) -> read -> [compute] -> truncate -> write/close -> unlock.
+     open -> flock(LOCK_EX) -> read -> [compute] -> truncate -> write ... write/close -> unlock.
+   The rewrite itself may take several write(2) calls (stdio writes whole blocks directly and the tail
+   when the stream is closed): [mids p c] lists the contents the file passes through, after the
+   truncation and before it holds the complete new content c.  Every theorem holds for every
+   [mids]; the sync points of step.c sit around the whole fwrite/fclose pair, so the driven
+   correspondence runs the model with [mids] = none.
    A process is given by [upd p : bytes -> option bytes]: from the content it
    read, either the new content it writes (a successful robsd-step -W) or None
    (a reader, or a write that rejects its arguments: nothing is truncated).
@@ -17,6 +22,7 @@ Inductive pc :=
 | PRead         (* step.after_read: content in memory *)
 | PBeforeTrunc  (* step.before_truncate: new content computed *)
 | PTruncated    (* step.after_truncate: fopen("w") done *)
+| PWriting (todo : list bytes)   (* part of the data written: the file holds an intermediate content, [todo] are those still to come *)
 | PWritten      (* step.after_write: data flushed and closed *)
 | PDone.        (* step.after_unlock *)
 
@@ -33,6 +39,14 @@ Definition upd_fun {A} (f : nat -> A) (p : nat) (x : A) : nat -> A :=
 
 Section Sys.
   Variable upd : nat -> bytes -> option bytes.
+  Variable mids : nat -> bytes -> list bytes.
+
+  (* the next content on the way to c, given the intermediate contents still to come *)
+  Definition write_next (s : state) (p : nat) (c : bytes) (todo : list bytes) : state :=
+    match todo with
+    | [] => mkstate c (lock s) (upd_fun (pcs s) p PWritten) (snaps s) (log s)
+    | m :: rest => mkstate m (lock s) (upd_fun (pcs s) p (PWriting rest)) (snaps s) (log s)
+    end.
 
   Definition init (f0 : bytes) : state :=
     mkstate f0 None (fun _ => PStart) (fun _ => []) [].
@@ -55,7 +69,12 @@ Section Sys.
     | PBeforeTrunc => Some (mkstate [] (lock s) (upd_fun (pcs s) p PTruncated) (snaps s) (log s))
     | PTruncated =>
         match upd p (snaps s p) with
-        | Some c => Some (mkstate c (lock s) (upd_fun (pcs s) p PWritten) (snaps s) (log s))
+        | Some c => Some (write_next s p c (mids p c))
+        | None => None
+        end
+    | PWriting todo =>
+        match upd p (snaps s p) with
+        | Some c => Some (write_next s p c todo)
         | None => None
         end
     | PWritten => Some (mkstate (file s) None (upd_fun (pcs s) p PDone) (snaps s) (log s))
@@ -84,6 +103,23 @@ Section Sys.
     | _ => step s p
     end.
 
+  (* the same system with the lock released right after the truncation, before the data is written
+     and flushed (what "unlock once fwrite returned" amounts to, the data still being in the stdio buffer) *)
+  Definition step_early_unlock (s : state) (p : nat) : option state :=
+    match pcs s p with
+    | PBeforeTrunc => Some (mkstate [] None (upd_fun (pcs s) p PTruncated) (snaps s) (log s))
+    | _ => step s p
+    end.
+
+  Fixpoint run_early_unlock (s : state) (sched : list nat) : state :=
+    match sched with
+    | [] => s
+    | p :: sched' => match step_early_unlock s p with
+                     | Some s' => run_early_unlock s' sched'
+                     | None => run_early_unlock s sched'
+                     end
+    end.
+
   Fixpoint run_nolock (s : state) (sched : list nat) : state :=
     match sched with
     | [] => s
@@ -93,3 +129,6 @@ Section Sys.
                      end
     end.
 End Sys.
+
+(* a rewrite that reaches the file in one piece *)
+Definition no_mids (p : nat) (c : bytes) : list bytes := [].
